@@ -581,6 +581,172 @@ pub fn flow(trace: &[Value]) -> Vec<Value> {
     out
 }
 
+fn sent_list(p: &Value) -> Vec<(i64, i64, i64, bool, i64)> {
+    // (space, pn, size, ack_eliciting, generation)
+    let mut out = Vec::new();
+    if let Some(sp) = p["sp"].as_array() {
+        for (i, s) in sp.iter().enumerate() {
+            if let Some(l) = s["sent"].as_array() {
+                for x in l {
+                    out.push((i as i64, x[0].as_i64().unwrap_or(0), x[1].as_i64().unwrap_or(0),
+                        x[2] == true, x[3].as_i64().unwrap_or(0)));
+                }
+            }
+        }
+    }
+    out
+}
+
+/// C12: one history per connection; needs probe level 2 (outstanding packet lists)
+pub fn recovery(trace: &[Value]) -> Vec<Value> {
+    let run = trace[0]["run"].clone();
+    let c2s = trace[0]["cfgx"]["fates_c2s"].as_array().map_or(true, |a| a.iter().all(|x| x == "ok"));
+    let s2c = trace[0]["cfgx"]["fates_s2c"].as_array().map_or(true, |a| a.iter().all(|x| x == "ok"));
+    let cfgx = &trace[0]["cfgx"];
+    let mut clean = c2s && s2c
+        && cfgx["loss_pct"].as_i64().unwrap_or(0) == 0
+        && cfgx["dup_pct"].as_i64().unwrap_or(0) == 0
+        && cfgx["jitter_us"].as_i64().unwrap_or(0) == 0
+        && cfgx["late_us"].as_i64().unwrap_or(0) == 0;
+    for e in trace {
+        let ev = e["ev"].as_str().unwrap_or("");
+        if matches!(ev, "Replay" | "DropInflight" | "Blackhole" | "Migrate" | "Set" | "ResetLike" | "Splice" | "Vn")
+            || (ev == "Rx" && !matches!(e["cls"].as_str().unwrap_or("gen"), "gen"))
+            || (ev == "Tx" && e["dgs"].as_array().is_some_and(|a| a.iter().any(|d| d["fate"] != "ok")))
+        {
+            clean = false;
+        }
+    }
+    let mut lines: std::collections::BTreeMap<(i64, i64), Vec<Value>> = Default::default();
+    for e in trace {
+        let ev = e["ev"].as_str().unwrap_or("");
+        if !matches!(ev, "Tx" | "Rx" | "Timeout" | "Call") || e.get("pre").is_none() || e.get("post").is_none() {
+            continue;
+        }
+        if ev == "Rx" && e["kind"] != "conn" {
+            continue;
+        }
+        let n = e["n"].as_i64().unwrap();
+        let c = e["c"].as_i64().unwrap();
+        let pre = &e["pre"];
+        let post = &e["post"];
+        let v = lines.entry((n, c)).or_default();
+        if v.is_empty() {
+            v.push(json!({"ev":"Reset","run":run,"n":n,"c":c,"clean":clean}));
+        }
+        let a = sent_list(pre);
+        let b = sent_list(post);
+        let gen = post["path"]["gen"].as_i64().unwrap_or(0);
+        let pgen = post["prev"]["gen"].as_i64().unwrap_or(-1);
+        let has_prev = post["prev"]["rem"].as_i64().unwrap_or(0) != 0;
+        let (mut sum_cur, mut cnt_cur, mut sum_prev, mut cnt_prev) = (0i64, 0i64, 0i64, 0i64);
+        for x in &b {
+            if x.4 == gen {
+                sum_cur += x.2;
+                cnt_cur += x.3 as i64;
+            } else if has_prev && x.4 == pgen {
+                sum_prev += x.2;
+                cnt_prev += x.3 as i64;
+            }
+        }
+        let in_a: std::collections::HashSet<(i64, i64)> = a.iter().map(|x| (x.0, x.1)).collect();
+        let in_b: std::collections::HashSet<(i64, i64)> = b.iter().map(|x| (x.0, x.1)).collect();
+        // packets that became outstanding during this step
+        let mut newp: Vec<Value> = b
+            .iter()
+            .filter(|x| !in_a.contains(&(x.0, x.1)))
+            .map(|x| json!({"sp":x.0,"pn":x.1,"size":x.2,"ae":x.3,"gen":x.4}))
+            .collect();
+        newp.sort_by_key(|x| (x["sp"].as_i64().unwrap_or(0), x["pn"].as_i64().unwrap_or(0)));
+        // the datagrams of this transmit, in order, with the in-flight bytes they added
+        let mut dgl: Vec<Value> = Vec::new();
+        if ev == "Tx" {
+            let size_of: std::collections::HashMap<(i64, i64), (i64, bool)> =
+                b.iter().map(|x| ((x.0, x.1), (x.2, x.3))).collect();
+            for d in e["dgs"].as_array().cloned().unwrap_or_default() {
+                let dsize = d["size"].as_i64().unwrap_or(0);
+                let mut exempt = false;
+                let mut infl = 0i64;
+                let mut ae = false;
+                let mut first_sp = -1i64;
+                let mut first_ae = true;
+                let mut npk = 0;
+                for p in d["pkts"].as_array().cloned().unwrap_or_default() {
+                    if npk == 0 {
+                        first_ae = p["ae"] == true;
+                    }
+                    npk += 1;
+                    let fr = frames_of(&p);
+                    let names: Vec<&str> = fr.iter().map(|f| f["f"].as_str().unwrap_or("")).collect();
+                    let only = |set: &[&str]| names.iter().all(|n| set.contains(n));
+                    exempt |= names.contains(&"CONNECTION_CLOSE")
+                        || names.contains(&"PATH_CHALLENGE")
+                        || names.contains(&"PATH_RESPONSE")
+                        || (only(&["PING", "PADDING", "IMMEDIATE_ACK"]) && names.contains(&"PING")
+                            && dsize > pre["path"]["mtu"].as_i64().unwrap_or(0));
+                    let key = (p["sp"].as_i64().unwrap_or(-1), p["pn"].as_i64().unwrap_or(-1));
+                    if first_sp < 0 {
+                        first_sp = key.0;
+                    }
+                    if let Some((sz, a)) = size_of.get(&key) {
+                        if !in_a.contains(&key) {
+                            infl += sz;
+                            ae |= *a && *sz > 0;
+                        }
+                    }
+                }
+                // the first packet of the datagram carries nothing ack-eliciting (e.g. an ACK-only
+                // Initial) and further packets were coalesced behind it
+                let behind_ack_only = !first_ae && npk > 1;
+                dgl.push(json!({"sp":first_sp,"infl":infl,"ae":ae,"exempt":exempt,"size":dsize,
+                    "behind":behind_ack_only}));
+            }
+        }
+        let left: Vec<Value> = a
+            .iter()
+            .filter(|x| !in_b.contains(&(x.0, x.1)))
+            .map(|x| json!({"sp":x.0,"pn":x.1}))
+            .collect();
+        // acknowledged ranges carried by the delivered datagram
+        let mut acked: Vec<Value> = Vec::new();
+        if ev == "Rx" {
+            for p in e["pk"].as_array().cloned().unwrap_or_default() {
+                for f in frames_of(&p) {
+                    if f["f"] == "ACK" {
+                        for r in f["ranges"].as_array().cloned().unwrap_or_default() {
+                            acked.push(json!({"sp":p["sp"],"lo":r[0],"hi":r[1]}));
+                        }
+                    }
+                }
+            }
+        }
+        let keys = |p: &Value| -> Vec<bool> {
+            p["sp"].as_array().map(|a| a.iter().map(|s| s["keys"] == true).collect()).unwrap_or_default()
+        };
+        let (kpre, kpost) = (keys(pre), keys(post));
+        let disc: Vec<i64> = (0..3).filter(|&i| kpre.get(i) == Some(&true) && kpost.get(i) == Some(&false)).map(|i| i as i64).collect();
+        let lp: Vec<Value> = pre["sp"].as_array().map(|a| a.iter().map(|s| s["lp"].clone()).collect()).unwrap_or_default();
+        let nextpn: Vec<Value> = pre["sp"].as_array().map(|a| a.iter().map(|s| s["next"].clone()).collect()).unwrap_or_default();
+        let d = |k: &str| post["stats"][k].as_i64().unwrap_or(0) - pre["stats"][k].as_i64().unwrap_or(0);
+        let zacc_change = pre["zk"] != post["zk"] || pre["zacc"] != post["zacc"];
+        let retry = ev == "Rx" && e["otypes"].as_str().unwrap_or("").contains('R');
+        v.push(json!({"ev":"Step","kind":ev,"t":e["t"],"new":newp,"dgl":dgl,"left":left,"acked":acked,"disc":disc,
+            "dlost":d("lost") + d("lprobe"),"lost":post["stats"]["lost"],"cev":post["stats"]["cev"],
+            "ifb":post["path"]["ifb"],"ifae":post["path"]["ifae"],
+            "pifb":if has_prev { post["prev"]["ifb"].clone() } else { json!(-1) },
+            "pifae":if has_prev { post["prev"]["ifae"].clone() } else { json!(-1) },
+            "sum":sum_cur,"cnt":cnt_cur,"psum":sum_prev,"pcnt":cnt_prev,
+            "pre_ifb":pre["path"]["ifb"],"cwnd":cap(&pre["path"]["cwnd"]),"lp":lp,"next":nextpn,
+            "pathchg":pre["path"]["gen"] != post["path"]["gen"],
+            "zchg":zacc_change,"retry":retry,"st":post["st"]}));
+    }
+    let mut out = Vec::new();
+    for (_, v) in lines {
+        out.extend(v);
+    }
+    out
+}
+
 pub fn project(name: &str, trace: &[Value]) -> Vec<Value> {
     match name {
         "lifecycle" => lifecycle(trace),
@@ -588,6 +754,7 @@ pub fn project(name: &str, trace: &[Value]) -> Vec<Value> {
         "antiamp" => antiamp(trace),
         "auth" => auth(trace),
         "flow" => flow(trace),
+        "recovery" => recovery(trace),
         "master" => trace.to_vec(),
         o => panic!("unknown projection {o}"),
     }
